@@ -1,5 +1,6 @@
 import DriverLib.Basic
 import QV.Model.Callbacks
+import QV.Model.PyFlag
 open Lean Drv QV QV.Cb
 
 namespace Drv.C17
@@ -183,11 +184,60 @@ def defaultMsgs (j : Json) : R Json := do
   let es ← (← jArr (← fld j "epochs")).toList.mapM jInt
   return .arr (es.map (fun e => Json.str (defaultMsg kw e))).toArray
 
+
+def parseFlag (j : Json) : R PyFlag := do
+  let form ← jNat (← fld j "form")
+  let v ← jInt (← fld j "value")
+  return match form with
+    | 0 => .pyBool (v != 0)
+    | 1 => .pyInt v
+    | 2 => .npBool (v != 0)
+    | 3 => .npArr0 (v != 0)
+    | _ => .tensor0 (v != 0)
+
+def errOfString (s : String) : PyErr :=
+  match s with
+  | "ValueError" => .ValueError | "TypeError" => .TypeError | "RuntimeError" => .RuntimeError
+  | "ZeroDivisionError" => .ZeroDivisionError | "AttributeError" => .AttributeError | "KeyError" => .KeyError
+  | "IndexError" => .IndexError | _ => .AssertionError
+
+def effectsOut {X : Type} (xOut : X → Json) (r : Effects (EvalState X Int)) : Json :=
+  Json.mkObj [("len", nOut r.state.len), ("epochs", intsOut r.state.epochs), ("last", pairsOut xOut r.state.last),
+    ("past", .arr (r.state.past.map (fun rec => Json.arr #[iOut rec.1, pairsOut xOut rec.2])).toArray),
+    ("log", .arr (r.state.log.map (fun row => Json.arr (row.map cellOut).toArray)).toArray),
+    ("out", .arr (r.out.map Json.str).toArray),
+    ("err", match r.err with | none => .null | some e => .str e.toString)]
+
+/-- op `c17.verbose`: one evaluator with a `verbose` object driven through a list of epoch-end events with the effect
+model (`runV`): values are integer tokens, `fmt` = `[[token, text | null, error kind | null], …]` is what
+`format(value, ".6f")` gives for each token (the interpreter's formatting: an input).
+in : kind "metric"|"observable", period, log, verbose {form, value}, events [...], fmt, and `vals` (metric) /
+`obs` + `stats` (observable) as in `c17.run`.   out: the state left behind, stdout chunks, the exception -/
+def verboseOp (j : Json) : R Json := do
+  let cb ← parseCallback j
+  let verbose ← parseFlag (← fld j "verbose")
+  let evs ← (← jArr (← fld j "events")).toList.mapM parseEv
+  let table ← (← jArr (← fld j "fmt")).toList.mapM (fun row => do
+    let a ← jArr row
+    let tok ← jInt (a.getD 0 .null)
+    let res : Except PyErr String ← (match a.getD 1 .null with
+      | .null => do pure (Except.error (errOfString (← jStr (a.getD 2 .null))))
+      | t => do pure (Except.ok (← jStr t)))
+    return (tok, res))
+  let fmt : Int → Except PyErr String := fun v => (table.lookup v).getD (.error .AssertionError)
+  let withCols (names : List String) (fields : List Field) (r : Json) : Json :=
+    r.mergeObj (Json.mkObj [("names", .arr (names.map Json.str).toArray), ("fields", .arr (fields.map (fun f => Json.str f.text)).toArray)])
+  match cb with
+  | .metric c => return withCols c.names c.csvFields (effectsOut iOut (c.runV verbose fmt c.init evs))
+  | .observable c => return withCols c.names c.csvFields (effectsOut (pairsOut iOut) (c.runV verbose fmt c.init evs))
+  | _ => .error "c17.verbose: metric or observable expected"
+
 def handle (op : String) (j : Json) : Option (R Json) :=
   match op with
   | "c17.run" => some (run j)
   | "c17.default_msg" => some (defaultMsgs j)
   | "c17.strip" => some (strip j)
+  | "c17.verbose" => some (verboseOp j)
   | _ => none
 
 end Drv.C17
